@@ -9,10 +9,9 @@ PK = dict(harness="h_packet.c", units=["src/hamm.c"], flags=["--no-undefined-shi
                      "init_expand.0": 7, "init_expand.1": 65})
 
 
-def pad_member(rx, member_size):
-    """runner patch: scratch copy of cache-priv.h with a pad behind the union member whose last declaration matches rx, just big enough to
-    make it the widest member (drcs: 4416 bytes) (R17)"""
-    return {"src/cache-priv.h": [(rx, r"\g<0> uint8_t verif_pad[%d];" % (4416 - member_size + 8))]}
+# R17: leaf parsers are compiled against a scratch copy of cache-priv.h in which the page union is a struct (see harness/h_packet.c)
+CARVE = dict(patch={"src/cache-priv.h": [(r"(unsigned int\s+x28_designations;\s*\n\s*)union \{", r"\1struct {")]})
+CARVE_STUB = "page union `data` of cache_page laid out as a struct in a scratch copy of cache-priv.h (cbmc union representation; sound for parsers using a single member; frame assertions cover the neighbouring members)"
 
 
 def packet_obs():
@@ -34,8 +33,7 @@ def packet_obs():
         desc="parse_pop on an arbitrary row, packet 1..26 (26 => designation added), arbitrary exact-size cache_page: no access outside (pointer table, triplet table); a single "
              "bit error in a clean byte/triplet gives the same return value and page state",
         encodes=["parse_pop", "vbi_unham24p", "vbi_unham8"], bounds="none within one packet; packet number enumerated by the runner (1..26 thorough; 1,2,3,4,5,25,26 quick)",
-        grid=[dict(PKTSEL=k) for k in range(1, 27)], quick_grid=[dict(PKTSEL=k) for k in (1, 2, 3, 4, 5, 25, 26)], timeout=600, mem_gb=4, solver="cadical",
-        patch=pad_member(r"struct ttx_triplet\s+triplet\[39 \* 13 \+ 1\];", 1732), defines=dict(PAD_UNION_MEMBER=None), **PK)
+        grid=[dict(PKTSEL=k) for k in range(1, 27)], quick_grid=[dict(PKTSEL=k) for k in (1, 2, 3, 4, 5, 25, 26)], timeout=600, mem_gb=4, solver="cadical", **PK)
     o["x27"] = Ob("parse_27", func="h_27", unwind=50, vin_size=128, reach=["end", "clean"],
         desc="parse_27 on an arbitrary row and page state: no access outside link[36]; single bit error in a clean protected byte/triplet (bytes 0..37) => same result and state",
         encodes=["parse_27", "unham_page_link", "vbi_unham24p"], bounds="none within one packet; designation code enumerated by the runner (0..15 thorough; 0, 3, 4, 5, 6 quick)",
@@ -121,4 +119,16 @@ def packet_obs():
     for k, gs in groups.items():
         for g in gs:
             o[k].defines[g] = None      # -DG_xxx: compile in only the static objects this obligation uses
+    for k in ("pop", "x27", "x27_links", "ait", "lop_parity", "lop_parity_x26", "x2829", "mip", "drcs"):     # leaf parsers using one member of the page union
+        o[k].patch = dict(CARVE["patch"]); o[k].defines["CARVE_PAGE_UNION"] = None; o[k].stubs = o[k].stubs + [CARVE_STUB]
+        # with the members side by side the page has ~20 000 scalars: cbmc's field sensitivity walks all of them at EVERY access to the object
+        # (field_sensitivityt::get_fields; 0.3 s per access).  Arrays longer than 8 elements stay arrays (rows, link and triplet tables): symex 17 s.
+        if "--max-field-sensitivity-array-size" not in o[k].flags:
+            o[k].flags = o[k].flags + ["--max-field-sensitivity-array-size", "8"]
+    for k in ("btt", "mpt", "mpt_ex", "mip", "rows", "header", "header_badpage", "header_timefill", "addr_error"):
+        # obligations on the decoder / network objects (52 KB / 35 KB): same per-access cost of field sensitivity; rows, page statistics, link tables stay arrays
+        if "--max-field-sensitivity-array-size" not in o[k].flags:
+            o[k].flags = o[k].flags + ["--max-field-sensitivity-array-size", "8"]
+    for k in ("pop", "x27", "ait"):
+        o[k].unwind = 1100              # member-wise frame loops (508 triplets, 1040 row bytes); the parsers' own loops are <= 13 (unwinding assertions on)
     return o
